@@ -188,10 +188,21 @@ def stream_to_bytes(items, key, world):
                     ends.append(len(out) + len(b) + len(fb))
                 world.rec({"k": "srv", "i": len(ends), "it": "f", "op": it['op'] if j == 0 else 0, "fin": 1 if j == len(pieces) - 1 else 0,
                            "rsv1": 1 if (it.get('z') and j == 0) else 0, "rsv2": 0, "rsv3": 0, "mask": False, "pl": codec.pv(piece),
-                           "acc": codec.pv(acc), "orig": codec.pv(payload), "len": len(fb), "ann": "len",
+                           "acc": codec.pv(acc), "orig": codec.pv(payload), "zorig": bool(it.get('z')), "len": len(fb), "ann": "len",
                            "off": len(out) + len(b) + len(fb) - len(piece) - getattr(world, 'http_len', 0),
                            "end": len(out) + len(b) + len(fb) - getattr(world, 'http_len', 0)})
                 b += fb
+                if it.get('ctl') and j < len(pieces) - 1:
+                    # a control frame between two fragments of the (possibly compressed) message
+                    cop = 9 if j % 2 == 0 else 10
+                    cpl = bytes([0x70 + j % 16])
+                    cf = codec.encode_frame(cop, cpl)
+                    ends.append(len(out) + len(b) + len(cf))
+                    world.rec({"k": "srv", "i": len(ends), "it": "f", "op": cop, "fin": 1, "rsv1": 0, "rsv2": 0, "rsv3": 0, "mask": False,
+                               "pl": codec.pv(cpl), "acc": codec.pv(cpl), "orig": codec.pv(cpl), "len": len(cf), "ann": "len",
+                               "off": len(out) + len(b) + len(cf) - len(cpl) - getattr(world, 'http_len', 0),
+                               "end": len(out) + len(b) + len(cf) - getattr(world, 'http_len', 0)})
+                    b += cf
         elif t == 'raw':
             b = bytes(it['b'])
             world.rec({"k": "srv", "i": i, "it": "raw", "len": len(b)})
